@@ -17,7 +17,7 @@ DVKINDS = [k for k in KINDS if k != "u8c"]
 OTHER = ["every", "some", "find", "findIndex", "findLast", "findLastIndex", "forEach", "map", "filter", "toSorted",
          "reduce", "reduceRight", "indexOf", "lastIndexOf", "includes", "at", "join", "with", "toReversed",
          "toString", "toLocaleString", "keys", "values", "entries", "iterate", "export"]
-PROPS_MIN = 40
+PROPS_MIN = 28
 
 
 def f64(x):
@@ -474,7 +474,10 @@ class Runner:
         self.ctx, self.harness, self.model = ctx, harness, model
 
     def run(self, exe, lines, timeout=600):
-        rc, out, err = self.ctx.run_lines([exe], lines, timeout=timeout)
+        env = dict(os.environ)
+        if exe.endswith("_checkptr"):
+            env["C17_CHECKPTR"] = "1"
+        rc, out, err = self.ctx.run_lines([exe], lines, timeout=timeout, env=env)
         return rc, out, err
 
     def both(self, lines):
@@ -485,6 +488,8 @@ class Runner:
             if rc_m != 0 or len(out_m) != len(lines):
                 out_m = (out_m + [None] * len(lines))[:len(lines)]
         died = rc_h != 0 or len(out_h) != len(lines)
+        if died and out_h and len(out_h) < len(lines):
+            out_h = out_h[:-1]          # the last line may be cut in the middle
         out_h = (out_h + [None] * len(lines))[:len(lines)]
         return out_h, out_m, died, err_h
 
@@ -607,10 +612,18 @@ def value_class(tok):
     return "finite<2^53"
 
 
-def signature(lines, i, cls, outs):
+def signature(lines, i, cls, outs, mline=None):
     """canonical signature of a failing line: class + op (+ element kind and value class for codec mismatches)"""
     opw = lines[i].split()
-    if cls.split(":")[0] in ("bytes-mismatch", "result-mismatch") and opw[0] in ("p", "f", "S", "a"):
+    if cls.split(":")[0] == "result-mismatch" and outs and i < len(outs) and outs[i]:
+        # which answer the implementation gave instead (error class / value / ok), without payload
+        head = outs[i].split(" | ")[0]
+        head = ":".join(head.split(":")[:2]) if head.startswith("E:") else head.split(":")[0].split(" ")[0]
+        def hd(x):
+            x = x.split(" | ")[0]
+            return ":".join(x.split(":")[:2]) if x.startswith("E:") else x.split(":")[0].split(" ")[0]
+        return cls + ":impl=" + head + (":spec=" + hd(mline) if mline else "")
+    if cls.split(":")[0] == "bytes-mismatch" and opw[0] in ("p", "f", "S", "a"):
         if opw[0] == "S":
             kind, toks = opw[2], [opw[4]]
         else:
@@ -629,14 +642,14 @@ def signature(lines, i, cls, outs):
     return cls
 
 
-def report(ctx, runner, failures, limit=14):
+def report(ctx, runner, failures, limit=8):
     """One representative per distinct signature.  A signature already listed as `known` is recorded without
     shrinking; anything else is shrunk (ddmin over op lines, then adversary annotations) and reported with a replay."""
     groups = {}
     for case, j, cls, h, m, err, outs in failures:
-        sig0 = signature(case, j, cls, outs)
+        sig0 = signature(case, j, cls, outs, m)
         groups.setdefault(sig0, (case, j, cls, h, m, err, outs))
-    ctx.stats["failure_signatures"] = {k: sum(1 for f in failures if signature(f[0], f[1], f[2], f[6]) == k) for k in groups}
+    ctx.stats["failure_signatures"] = {k: sum(1 for f in failures if signature(f[0], f[1], f[2], f[6], f[4]) == k) for k in groups}
     unprocessed = 0
     for n, (sig0, (case, j, cls, h, m, err, outs)) in enumerate(sorted(groups.items())):
         trunc = case[:j + 1]
@@ -654,7 +667,7 @@ def report(ctx, runner, failures, limit=14):
         else:
             souts = runner.last_out_h
         i, cls2, h2, m2, err2 = fb
-        sig = signature(small, i, cls2, souts)
+        sig = signature(small, i, cls2, souts, m2)
         summary = "%s at op `%s` (impl: %s ; spec model: %s)" % (cls2, small[i], (h2 or "harness died: " + (err2 or "")[-300:])[:300], (m2 or "n/a")[:300])
         ctx.violation(sig, summary, {"kind": "history", "ops": small, "failing_line": i, "observed": h2, "expected": m2,
                                      "harness_stderr": (err2 or "")[-1500:], "original_case": case})
@@ -706,7 +719,7 @@ def main(ctx):
                          "DataView: every (byteOffset, byteLength) x 10 types x every index x both byte orders, for the listed buffer sizes"}
     cases += g1 + g2 + g3
     # random histories
-    nrand = 2500 if quick else 40000
+    nrand = int(os.environ.get("C17_RANDOM", "0")) or (2500 if quick else 16000)
     for i in range(nrand):
         rng = random.Random((ctx.seed << 20) ^ i)
         cases.append(Gen(rng, max_ops=25, adversary=rng.choice([0.0, 0.1, 0.2, 0.35])).case())
@@ -727,9 +740,9 @@ def main(ctx):
             os.replace(hc, hc2)
             harness = ctx.go_build()      # restore the normal binary under its usual name
             r2 = Runner(ctx, hc2, model)
-            sub = cases[:ncorpus] + cases[-6000:]
+            sub = cases[:ncorpus] + cases[-4000:]
             f2 = run_shards(ctx, r2, sub)
-            new2 = sorted({signature(f[0], f[1], f[2], f[6]) for f in f2 if ctx.known_signature(signature(f[0], f[1], f[2], f[6])) is None})
+            new2 = sorted({signature(f[0], f[1], f[2], f[6], f[4]) for f in f2 if ctx.known_signature(signature(f[0], f[1], f[2], f[6], f[4])) is None})
             ctx.obligation("corr:checkptr-run", "correspondence", not new2,
                            "%d cases under -gcflags=all=-d=checkptr, %d failing, not-known signatures: %s" % (len(sub), len(f2), new2))
             failures += f2
